@@ -154,12 +154,12 @@ def site_guarded(sem, vis, bb, fact_pred):
     return False, "unguarded path: " + " <- ".join(chain)
 
 
-def written_value_in(sem, visits, vis, kind, cell, val):
+def written_value_in(sem, visits, vis, kind, cell, val, expand_ws=True):
     """like Sem.written_value but, for update(closure), evaluated inside the closure's own
     specialised visit (infeasible arms of the closure pruned by the abstract environment)"""
     w = sem.w
     if kind != "update":
-        return sem.written_value(kind, cell, val)
+        return sem.written_value(kind, cell, val, expand_ws)
     clo = w.ident(val)
     if clo.op != "closure":
         return None
@@ -176,4 +176,4 @@ def written_value_in(sem, visits, vis, kind, cell, val):
                 vals.append(v)
     if not vals:
         return None
-    return w.ident(mk_phi(vals))
+    return w.ident(mk_phi(vals), 0, expand_ws)
